@@ -108,11 +108,11 @@ class CHECK(Check):
         try:
             with lib.budget(budget):
                 if case["fam"] == "reg":
-                    regs = [reglib.mk_register_class(rd, i) for i, rd in enumerate(case["defs"])]
+                    regs = reglib.mk_register_classes(case["defs"])
                     F = reglib.mk_file_class(regs, case["binary"])
                     f = F.read(content_arg, case["linesize"]) if case["binary"] else F.read(content_arg)
                 elif case["fam"] == "block":
-                    blocks = [bl.mk_block_class(bd, i, case["binary"]) for i, bd in enumerate(case["blocks"])]
+                    blocks = bl.mk_block_classes(case["blocks"], case["binary"])
                     f = bl.mk_blockfile_class(blocks, case["binary"]).read(content_arg)
                 else:
                     secs = [bl.mk_section_class(sd, i) for i, sd in enumerate(case["secs"])]
